@@ -1122,6 +1122,26 @@ class Engine(object):
     def st_Import(self, st, env):
         raise Unsupported("import inside function")
 
+    def arbitrary_order(self, items):
+        """Iteration order of a set is arbitrary (PYTHONHASHSEED): explore every permutation for up
+        to 3 elements, and all rotations plus the reversal beyond that (stated bound)."""
+        import itertools as _it
+        from . import seqlib
+        try:
+            base = sorted(items, key=repr)
+        except Exception:
+            base = list(items)
+        n = len(base)
+        if n <= 1:
+            return seqlib.TaintedList(base)
+        if n <= 3:
+            perms = list(_it.permutations(base))
+        else:
+            perms = [tuple(base[k:] + base[:k]) for k in range(n)] + [tuple(reversed(base))]
+        k = self.choose(len(perms))
+        self.path.notes["set_orders"] = self.path.notes.get("set_orders", 0) + 1
+        return seqlib.TaintedList(perms[k])
+
     def iterate(self, it):
         """Concrete iteration order of a concrete iterable (elements may be symbolic)."""
         if isinstance(it, dict):
@@ -1130,7 +1150,7 @@ class Engine(object):
         if isinstance(it, (list, tuple, str, range, enumerate, zip, map, filter, reversed)):
             return list(it)
         if isinstance(it, (set, frozenset)):
-            raise Unsupported("iteration over a set (order is hash-seed dependent)")
+            return self.arbitrary_order(list(it))
         if isinstance(it, (type({}.keys()), type({}.values()), type({}.items()))):
             return list(it)
         if is_repo_class(type(it)):
